@@ -17,7 +17,7 @@ theorem fallSt_bIdx (st : St) (gbi : Nat) (name x : String) : (fallSt st gbi nam
   rw [modAt_map st.bGrp gbi (fun g => { g with onDev := name }) (fun x => x.g.name) (fun _ => rfl)]
 
 theorem GInv.fall {Ref : String → Prop} {st : St} (h : GInv Ref st) (gbi : Nat) (gb : BGrp)
-    (hb : st.bGrp[gbi]? = some gb) (h0 : gb.onDev = "") (hn : gb.needed = true) :
+    (hb : st.bGrp[gbi]? = some gb) (h0 : gb.onDev = "") (hn : gb.needed = true) (hr : Ref gb.g.name) :
     GInv Ref (fallSt st gbi gb.newName) := by
   have hgbmem : gb ∈ st.bGrp := List.mem_of_getElem? hb
   obtain ⟨hne, hfresh⟩ := h.fresh gb hgbmem
@@ -29,7 +29,7 @@ theorem GInv.fall {Ref : String → Prop} {st : St} (h : GInv Ref st) (gbi : Nat
     · rw [hb] at hy; cases hy; exact Or.inr e
   have hbn : (fallSt st gbi gb.newName).bGrp.map (·.g.name) = st.bGrp.map (·.g.name) :=
     modAt_map st.bGrp gbi (fun g => { g with onDev := gb.newName }) (fun x => x.g.name) (fun _ => rfl)
-  refine ⟨h.anodup, by rw [hbn]; exact h.bnodup, h.ane, ?_, h.aplain, ?_, h.amemnd, ?_, ?_, ?_, ?_, ?_, ?_⟩
+  refine ⟨h.anodup, by rw [hbn]; exact h.bnodup, h.ane, ?_, h.aplain, ?_, h.amemnd, ?_, ?_, ?_, ?_, ?_, ?_, ?_, ?_⟩
   · intro gb' hgb'
     rcases bmem gb' hgb' with h1 | h1
     · exact h.fresh gb' h1
@@ -65,6 +65,23 @@ theorem GInv.fall {Ref : String → Prop} {st : St} (h : GInv Ref st) (gbi : Nat
     rcases bmem gb' hgb' with h1 | h1
     · exact h.bne gb' h1
     · rw [h1]; exact h.bne gb hgbmem
+  · intro ga hga hn'
+    obtain ⟨gb0, hgb0, e0⟩ := h.c4 ga hga hn'
+    obtain ⟨j, hj⟩ := List.getElem?_of_mem hgb0
+    have hjne : j ≠ gbi := by
+      intro e
+      subst e
+      rw [hb] at hj; cases hj
+      rw [h0] at e0
+      exact h.ane ga hga e0.symm
+    refine ⟨gb0, ?_, e0⟩
+    apply List.mem_of_getElem? (i := j)
+    simp only [fallSt, modAt_getElem?, hjne, if_false]
+    exact hj
+  · intro gb' hgb' hne'
+    rcases bmem gb' hgb' with h1 | h1
+    · exact h.c5 gb' h1 hne'
+    · rw [h1]; exact hr
 
 theorem SimG.fall {sh : Shared} {Ref : String → Prop} {st : St} {vg : Vsys} (hs : SimG sh Ref st vg) (h : GInv Ref st)
     (gbi : Nat) (gb : BGrp) (hb : st.bGrp[gbi]? = some gb) :
@@ -258,7 +275,7 @@ theorem adaptStep_sim {sh : Shared} {Ref : String → Prop} (st : St) (vg : Vsys
           simp [claimSt, modAt_getElem?, hgb]
         refine ⟨claimSt st i gbi ga.g.name, ?_, rfl,
           GMono.claim st i gbi ga.g.name (fun gb' hb' => by rw [hgb] at hb'; cases hb'; exact hon),
-          hI.claim i gbi ga gb hi hgb hon,
+          hI.claim i gbi ga gb hi hgb hon (by rw [hname]; exact href (by simp [hidx])),
           hS.claim hI i gbi ga gb hi hgb hnn rfl (fun _ => rfl) (fun _ _ => rfl) ⟨ms, hms, hmem' ▸ hsame⟩, ?_, ?_⟩
         · rw [hadapt]; rfl
         · intro gbi' h'
@@ -279,7 +296,7 @@ theorem adaptStep_sim {sh : Shared} {Ref : String → Prop} (st : St) (vg : Vsys
           simp [fallSt, modAt_getElem?, hgb]
         refine ⟨fallSt st gbi gb.newName, ?_, rfl,
           GMono.setOnDev st gbi gb.newName (fun gb' hb' => by rw [hgb] at hb'; cases hb'; exact hon),
-          hI.fall gbi gb hgb hon hneeded, hS.fall hI gbi gb hgb, ?_, ?_⟩
+          hI.fall gbi gb hgb hon hneeded (by rw [hname]; exact href (by simp [hidx])), hS.fall hI gbi gb hgb, ?_, ?_⟩
         · rw [hadapt]; rfl
         · intro gbi' h'
           rw [fallSt_bIdx, hidx] at h'
